@@ -47,6 +47,21 @@ def c07_1(ctx):
         _refcheck(ctx, rel, cls + ".stream", pre + "_stream", "writer:%s" % cls)
         _refcheck(ctx, rel, cls + ".parse", pre + "_parse", "reader:%s" % cls)
         _refcheck(ctx, rel, cls + ".__init__", pre + "_init", "fields:%s" % cls)
+    # BIP144: the extended form is used iff some input has a non-empty witness STACK (its items may well be empty: a FALSE
+    # argument of a P2WSH script is the empty item)
+    import re as _re
+    hw = ctx.func(TX, "Tx.has_witness_data")
+    fm = sym.truth_formula(sym.walk(ctx, hw))
+    txt = fm[1] if isinstance(fm, tuple) and fm[0] == "op" and isinstance(fm[1], str) else None
+    if txt is None:
+        raise Undecided("Tx.has_witness_data is not one `any input ...` test (%s); this rule does not read it" % (str(fm)[:80],))
+    if _re.fullmatch(r"any\{truthy\((\w+)\.witness\)(#\d+)? for \1 in self\.txs_in\}", txt):
+        ctx.ok("witness-flag-per-stack", sample={"predicate": txt})
+    elif txt.count(" for ") >= 2 and ".witness" in txt and "self.txs_in" in txt:
+        ctx.bad("witness-flag-per-stack", ctx.where(hw), "Tx.has_witness_data asks `%s`: it iterates INTO the witness stacks, so a transaction whose witness items are all empty ([b'']) is serialised in the legacy form and loses them"
+                % txt[:120], sample={"predicate": txt[:160]})
+    else:
+        raise Undecided("Tx.has_witness_data tests `%s`; this rule reads `any input has a non-empty witness stack` only" % txt[:100])
 
 
 # ------------------------------------------------------------------ C07.2
